@@ -12,21 +12,20 @@ Theorem C12_counting_exact :
 Proof. exact counting_exact_lemma. Qed.
 Print Assumptions C12_counting_exact.
 
-(** partial: the result satisfies assertPopDataFits (three counts and the byte size) as long as fewer than 256
-    payloads of each kind are kept. Full statement (no bound on the counts) is FALSE, see the next theorem. *)
-Theorem C12_generated_fits_partial :
+(** canFit as coded now (the growth of the kind's length prefix is priced): whatever filterInvalidPayloads keeps
+    satisfies assertPopDataFits (three counts and the byte size), for every candidate sequence - no bound on counts *)
+Theorem C12_generated_fits :
   forall L cands,
     10 <= max_size L ->
-    small (snd (filter_fit L cands c0 (mkk [] [] []))) ->
     fits L (snd (filter_fit L cands c0 (mkk [] [] []))) = true.
 Proof. exact generated_fits_lemma. Qed.
-Print Assumptions C12_generated_fits_partial.
+Print Assumptions C12_generated_fits.
 
-(** canFit prices the length prefix of the CURRENT count: the 256th payload of a kind that fits exactly makes the
-    kept PopData one byte larger than the maximum (assertPopDataFits would abort) *)
+(** documentation: canFit before the repair priced the length prefix of the CURRENT count: the 256th payload of a
+    kind that fits exactly made the kept PopData one byte larger than the maximum (assertPopDataFits aborted) *)
 Theorem C12_counting_prefix_refuted :
-  fits witness_limits (snd (filter_fit witness_limits witness_cands c0 (mkk [] [] []))) = false /\
-  len (k_atv (snd (filter_fit witness_limits witness_cands c0 (mkk [] [] [])))) = 256.
+  fits witness_limits (snd (filter_fit_v0 witness_limits witness_cands c0 (mkk [] [] []))) = false /\
+  len (k_atv (snd (filter_fit_v0 witness_limits witness_cands c0 (mkk [] [] [])))) = 256.
 Proof. exact counting_prefix_refuted_lemma. Qed.
 Print Assumptions C12_counting_prefix_refuted.
 
@@ -39,3 +38,13 @@ Theorem C12_generate_pure :
     forall s ps, generate_machine S P add_temp remove_temp exec unexec s ps = s.
 Proof. exact generate_pure_lemma. Qed.
 Print Assumptions C12_generate_pure.
+
+(** every payload kept by filterInvalidPayloads (pre-tests canFit / stateless duplicate, then execution on the
+    temporary block) was executed in the final order: a block carrying exactly the generated list, applied on the same
+    tip state, executes completely and reaches the state the temporary block had (exec is deterministic) *)
+Theorem C12_generated_applies :
+  forall (S P : Type) (add_temp : S -> S) (exec : P -> S -> option S) (pre : P -> list P -> bool) s ps,
+    exec_all S P exec (generated S P add_temp exec pre s ps) (add_temp s) =
+    Some (fst (filter_apply S P exec pre ps (add_temp s) [])).
+Proof. exact generated_applies_lemma. Qed.
+Print Assumptions C12_generated_applies.
